@@ -442,3 +442,48 @@ def fft_segments(s, ctx):
     if f_seg.shape != f_mono.shape or cm.max_abs(f_seg - f_mono) > 1e-11 * peak:
         raise Violation("C03.fft.field", f"propagate_fft of the segmented description (k={k}, scratch {s['scratch']}) differs "
                                          f"from the monolithic one by {cm.max_abs(f_seg - f_mono) / peak:.3e} of the peak")
+
+
+# --- hundreds of segments ------------------------------------------------------------------------------------------
+
+@hyp("C03", "many_segments", lambda tier: st.fixed_dictionaries(
+        {"rows": st.integers(12, 19), "cols": st.integers(13, 21), "seg": st.integers(2, 3), "seed": st.integers(0, 2**31 - 1),
+         "oversample": st.integers(1, 2), "out_shape": st.tuples(st.integers(4, 9), st.integers(4, 9)).map(list)}),
+     "a raster of 156..399 segments (2x2 or 3x3 samples each, gaps between them) described segment by segment and by "
+     "the union mask: same field and intensity after propagate_dft, and the reference Fraunhofer sum",
+     examples=(6, 30), budget_s=(150, 600))
+def many_segments(case, ctx):
+    R, C, g = case["rows"], case["cols"], case["seg"]
+    nseg, pitch = R * C, g + 1
+    m, n = R * pitch + 1, C * pitch + 1
+    labels = np.zeros((m, n), dtype=int)
+    k = 0
+    for i in range(R):
+        for j in range(C):
+            k += 1
+            labels[1 + i * pitch:1 + i * pitch + g, 1 + j * pitch:1 + j * pitch + g] = k
+    rng = np.random.default_rng(case["seed"])
+    wl, z, dx, os_ = 1e-6, 3.0, 1e-3, case["oversample"]
+    amp = rng.uniform(0.5, 1.0, size=(m, n)) * (labels > 0)
+    opd = rng.normal(size=(m, n)) * 0.05 * wl * (labels > 0)
+    du = (0.4 / m * wl * z * os_ / dx, 0.5 / n * wl * z * os_ / dx)
+    ctx.tag("segments>=256" if nseg >= 256 else "segments<256", f"os:{os_}")
+    ctx.nontrivial_if(nseg >= 256)
+
+    def image(mask):
+        p = lentil.Pupil(amplitude=amp.copy(), opd=opd.copy(), mask=mask, pixelscale=dx, focal_length=z)
+        out = lentil.propagate_dft(lentil.Wavefront(wl) * p, pixelscale=du, shape=tuple(case["out_shape"]), oversample=os_)
+        return out.field, out.intensity
+    with lentil_call("C03.many", f"{nseg} segments vs union mask"):
+        f_seg, i_seg = image(cube(labels))
+        f_mono, i_mono = image((labels > 0).astype(int))
+    peak = max(cm.max_abs(f_mono), 1e-300)
+    if f_seg.shape != f_mono.shape or cm.max_abs(f_seg - f_mono) > 1e-10 * peak:
+        raise Violation("C03.many.field", f"{nseg}-segment description differs from the union-mask description by "
+                                          f"{cm.max_abs(f_seg - f_mono) / peak:.3e} of the peak")
+    if cm.max_abs(i_seg - i_mono) > 1e-10 * peak ** 2:
+        raise Violation("C03.many.intensity", f"intensity of the {nseg}-segment description differs from the union-mask one")
+    model = pm.phasor((m, n), amp, opd, (labels > 0).astype(int), wl)
+    full = (case["out_shape"][0] * os_, case["out_shape"][1] * os_)
+    ref, tol, a = pm.fraunhofer(model, (dx, dx), du, wl, z, os_, full)
+    cm.compare_field("C03.many.ref", f_seg, ref, tol * (1 + np.sqrt(nseg)), np.ones(full, dtype=bool), what=f"{nseg} segments")
